@@ -79,6 +79,7 @@ def parse_acroform(path):
     """NC templates: -> {field name: {kind, maxlen, on (set of 'on' appearance states), opts}}"""
     data = open(path, "rb").read()
     out = {}
+    objs = {int(m.group(1)): m.group(2) for m in re.finditer(rb"(\d+) 0 obj(.*?)endobj", data, re.S)}
     for m in re.finditer(rb"(\d+) 0 obj(.*?)endobj", data, re.S):
         body = m.group(2)
         t = re.search(rb"/T\s*\((.*?)(?<!\\)\)", body, re.S)
@@ -87,7 +88,17 @@ def parse_acroform(path):
             continue
         name = t.group(1).decode("latin1").replace("\\(", "(").replace("\\)", ")").replace("\\\\", "\\")
         kind = {"Tx": "text", "Btn": "button", "Ch": "choice"}.get(ft.group(1).decode(), "other")
-        info = {"kind": kind, "maxlen": None, "on": [], "opts": []}
+        info = {"kind": kind, "maxlen": None, "on": [], "opts": [], "format": ""}
+        # the format script of a text box says what it is meant to hold: AFSpecial_Format(3) is a social security number
+        aa = re.search(rb"/AA\s*<<(.*?)>>", body, re.S)
+        if aa:
+            fref = re.search(rb"/F\s+(\d+) 0 R", aa.group(1))
+            js = objs.get(int(fref.group(1)), b"") if fref else b""
+            sp = re.search(rb"AFSpecial_Format\\?\((\d)", js)
+            if sp:
+                info["format"] = {"0": "zip", "1": "zip4", "2": "phone", "3": "ssn"}.get(sp.group(1).decode(), "")
+            elif b"AFNumber_Format" in js:
+                info["format"] = "number"
         ml = re.search(rb"/MaxLen\s+(\d+)", body)
         if ml:
             info["maxlen"] = int(ml.group(1))
